@@ -12,7 +12,7 @@ LEAN_MODULES = ["MpirProofs.Props.C07_gcdextdc2", "MpirProofs.Props.C07_hgcdnorm
 THEOREMS = ["Mpir.C07z.gcdextS_spec", "Mpir.C07z.mpn_gcdext_contract_unique", "Mpir.C07z.mpn_gcdext_contract_dc", "Mpir.C07z.mpn_gcdext_contract",
             "Mpir.C07z.mpn_gcdext_sized_eq_value_partial", "Mpir.C07z.mpz_gcdext_correct", "Mpir.C07z.mpz_invert_correct",
             "Mpir.C07z.mpz_gcdext_sized_correct_partial", "Mpir.C07z.mpz_gcdext_sized_build_partial",
-            "Mpir.C07n.hgcd_matrix_norm_preserved", "Mpir.C07n.mpn_hgcd_mn_of_norm", "Mpir.C07n.mpn_hgcd_mn_base", "Mpir.C07n.mpn_gcdext_dc_ok_of_norm_partial"]
+            "Mpir.C07n.hgcd_matrix_norm_preserved", "Mpir.C07n.mpn_hgcd_mn_of_norm", "Mpir.C07n.mpn_hgcd_mn_base", "Mpir.C07n.mpn_gcdext_dc_ok_of_norm_partial", "Mpir.C07n.hgcd_matrix_mul_tight_of_balance"]
 TRUSTED = []
 ASSUMPTIONS = ["mpz_gcdext_correct / mpz_invert_correct are about the value-level models, in which mpn_gcdext for n >= GCDEXT_DC_THRESHOLD is the canonical "
                "cofactor by definition; the statement-by-statement mirror of the divide-and-conquer code (mpnGcdextS) is PROVED equal to it for divisors with "
@@ -20,7 +20,7 @@ ASSUMPTIONS = ["mpz_gcdext_correct / mpz_invert_correct are about the value-leve
                "run beyond (mpn_hgcd_appr's truncation analysis is not proved)",
                "HgcdMn (M->n <= (n-p-1)/2 on mpn_hgcd's result, gcdext.c:296/:347) is proved for n <= HGCD_THRESHOLD (mpn_hgcd_mn_base) and reduced, for every size, to "
                "tightness of the returned matrix's size field (HgcdNorm = the ASSERT of mpn_hgcd_matrix_mul; tightness is proved preserved by update_q, mul_1, "
-               "every branch of mpn_hgcd_step and the loops); that mpn_hgcd_matrix_mul keeps it (product of normalised size >= M->n + M1->n - 2) is NOT proved — "
+               "every branch of mpn_hgcd_step and the loops); that mpn_hgcd_matrix_mul keeps it (product of normalised size >= M->n + M1->n - 2) is proved only GIVEN balance of the state w.r.t. the last factor of M (hgcd_matrix_mul_tight_of_balance); the balance invariant through mpn_hgcd2 / the recursion is not proved — "
                "both facts are evaluated on the real mpn_hgcd's output by the predicate op mpn_hgcd_tight on every run"]
 PINS = [("mpz/gcdext.c", None), ("mpz/invert.c", None), ("mpn/generic/hgcd_matrix.c", None), ("mpn/generic/hgcd_step.c", None),
         ("mpn/generic/gcd_subdiv_step.c", None), ("mpn/generic/hgcd.c", "mpn_hgcd")]
